@@ -1,4 +1,5 @@
 import OpenFecVerif.Model.Api
+import OpenFecVerif.Proofs.LdpcFin
 /-!
 # C11 — decoded-source-symbol callback contract (session model)
 
@@ -80,3 +81,13 @@ theorem C11_rs_stored_per_policy (IO : SymIO σ) (s : Session σ) (p : Params) (
   apply fold_sets
   · exact (List.nodup_range).filter _
   · simp [hi, hmiss]
+
+
+/-- **LDPC-Staircase / 2D, Gaussian-elimination stage: the callback events of `of_finish_decoding`** are exactly the source symbols
+that were unknown before the call and are known after it, each exactly once (the list has no repetition), never a symbol that was
+already known, never an ESI ≥ k. -/
+theorem C11_ldpc_finish_events (IO : SymIO σ) (s : Session σ) (p : Params) (it : IT.St σ) (hit : s.it = some it) (hk : it.k = p.k) :
+    ∃ it', (ldpcFinish IO s p).2.1.it = some it' ∧ (ldpcFinish IO s p).2.2.Nodup ∧
+      ∀ e, e ∈ (ldpcFinish IO s p).2.2 ↔ (e < p.k ∧ it.known e = false ∧ it'.known e = true) := by
+  obtain ⟨it', h1, _, _, _, h5, h6⟩ := LdpcFin.ldpcFinish_truthful IO s p it hit hk
+  exact ⟨it', h1, h5, h6⟩
